@@ -43,6 +43,8 @@ def obs_diam(d, n, types):
         d.check(); chk = 'true'
     except ValueError:
         chk = 'false'
+    except Exception as e:
+        chk = 'raised-' + type(e).__name__
     return ('diam %s volume %s sigma %s check %s' % (dia, vol, sig, chk)), sig == sig2
 
 def key_of(ts, types, style):
